@@ -287,8 +287,9 @@ public:
             } else {
                 next = pick(c, self);
             }
-        } else if (run_len_ >= fairness_quantum && !c.empty()) {
-            // fairness: whatever the generated schedule says, nobody runs forever while others could
+        } else if (!c.empty() && (run_len_ >= fairness_quantum || starved(c) != nullptr)) {
+            // fairness: whatever the generated schedule says, nobody runs forever while others could - neither one thread alone
+            // (run length) nor a group that keeps handing the baton to each other while a third thread waits (starvation)
             next = c[0];
             for (auto* l : c) {
                 if (l->last_ran < next->last_ran) { next = l; } // the one that has waited longest
@@ -561,6 +562,14 @@ private:
             if (l->state == TState::Runnable || (l->state == TState::Blocked && writes_performed_ > l->writes_seen)) { c.push_back(l); }
         }
         return c;
+    }
+    // a candidate that has not held the baton for more than the fairness quantum (worker threads only: background threads
+    // are driven by sleeps and grants)
+    LThread* starved(const std::vector<LThread*>& c) const {
+        for (auto* l : c) {
+            if (!l->background && steps > l->last_ran + fairness_quantum) { return l; }
+        }
+        return nullptr;
     }
     std::uint64_t read_delta() {
         std::uint64_t d = bytes_.byte();
